@@ -1,6 +1,7 @@
 package astits
 
 import (
+	"bytes"
 	"sort"
 )
 
@@ -129,7 +130,11 @@ func hasDiscontinuity(ps []*Packet, p *Packet) bool {
 }
 
 // isSameAsPrevious checks whether a packet is the same as the last packet of a set of packets
+// A duplicate carries the payload of the original (only its PCR may differ): a packet with the same continuity counter
+// but another payload is what follows a loss of 15 packets, not a duplicate
 func isSameAsPrevious(ps []*Packet, p *Packet) bool {
 	l := len(ps)
-	return l > 0 && p.Header.HasPayload && p.Header.ContinuityCounter == ps[l-1].Header.ContinuityCounter
+	return l > 0 && p.Header.HasPayload && p.Header.ContinuityCounter == ps[l-1].Header.ContinuityCounter &&
+		p.Header.PayloadUnitStartIndicator == ps[l-1].Header.PayloadUnitStartIndicator &&
+		bytes.Equal(p.Payload, ps[l-1].Payload)
 }
